@@ -29,7 +29,7 @@ STREAM = lambda prof, q, t: {"quick": [("codec", {"profile": prof, "count": q, "
 PROPS.update({
     "C09": {"suites": STREAM("C09", 120, 1500), "design": "6/C09", "projection": core.framing_projection()},
     "C12": {"suites": STREAM("C12", 120, 1500), "design": "6/C12", "projection": core.framing_projection(with_dump=True)},
-    "C13": {"suites": {"quick": STREAM("C13", 120, 1500)["quick"] + [("config", {"tier": "quick"})], "thorough": STREAM("C13", 120, 1500)["thorough"] + [("config", {"tier": "thorough"})]},
+    "C13": {"suites": {"quick": STREAM("C13", 120, 1500)["quick"] + [("config", {"tier": "quick"}), ("seq", {"profile": "C06", "count": 60})], "thorough": STREAM("C13", 120, 1500)["thorough"] + [("config", {"tier": "thorough"}), ("seq", {"profile": "C06", "count": 3000})]},
             "design": "6/C13", "projection": core.framing_projection(with_dump=True), "needs_memcrsd": True},
     "C18": {"suites": {"quick": STREAM("C18", 120, 1500)["quick"] + [("server", {"count": 16})], "thorough": STREAM("C18", 120, 1500)["thorough"] + [("server", {"count": 300})]},
             "design": "6/C18", "projection": core.framing_projection(with_dump=True)},
@@ -40,12 +40,12 @@ PROPS.update({
 
 POLICY = lambda prof, q, t: {"quick": [("policy", {"profile": prof, "count": q}), ("stress", {"count": 1000})], "thorough": [("policy", {"profile": prof, "count": t}), ("stress", {"count": 20000})]}
 PROPS.update({
-    "C14": {"suites": {"quick": POLICY("C14", 600, 30000)["quick"] + [("sched", {"profile": "C14", "count": 60, "per_case": 40}), ("sched", {"profile": "C14deep", "count": 60, "per_case": 40})],
-                       "thorough": POLICY("C14", 600, 30000)["thorough"] + [("sched", {"profile": "C14", "count": 2000, "per_case": 400}), ("sched", {"profile": "C14deep", "count": 3000, "per_case": 300})]},
-            "design": "6/C14", "projection": core.policy_projection()},
-    "C15": {"suites": {"quick": POLICY("C15", 300, 10000)["quick"] + [("sched", {"profile": "C14", "count": 40, "per_case": 40}), ("sched", {"profile": "C14deep", "count": 40, "per_case": 40})],
-                       "thorough": POLICY("C15", 300, 10000)["thorough"] + [("sched", {"profile": "C14", "count": 1500, "per_case": 300}), ("sched", {"profile": "C14deep", "count": 2000, "per_case": 300})]},
-            "design": "6/C15", "projection": core.policy_projection()},
+    "C14": {"suites": {"quick": POLICY("C14", 600, 30000)["quick"] + [("sched", {"profile": "C14", "count": 60, "per_case": 40}), ("sched", {"profile": "C14deep", "count": 60, "per_case": 40}), ("config", {"tier": "quick"})],
+                       "thorough": POLICY("C14", 600, 30000)["thorough"] + [("sched", {"profile": "C14", "count": 2000, "per_case": 400}), ("sched", {"profile": "C14deep", "count": 3000, "per_case": 300}), ("config", {"tier": "thorough"})]},
+            "design": "6/C14", "projection": core.policy_projection(), "needs_memcrsd": True},
+    "C15": {"suites": {"quick": POLICY("C15", 300, 10000)["quick"] + [("sched", {"profile": "C14", "count": 40, "per_case": 40}), ("sched", {"profile": "C14deep", "count": 40, "per_case": 40}), ("config", {"tier": "quick"})],
+                       "thorough": POLICY("C15", 300, 10000)["thorough"] + [("sched", {"profile": "C14", "count": 1500, "per_case": 300}), ("sched", {"profile": "C14deep", "count": 2000, "per_case": 300}), ("config", {"tier": "thorough"})]},
+            "design": "6/C15", "projection": core.policy_projection(), "needs_memcrsd": True},
 })
 
 RULE_POLICY = ("policy: programs of 10-120 commands (stores, overwrites, appends, counter updates, deletes, flushes, TTLs and clock advances) over 2-8 keys "
